@@ -217,6 +217,58 @@ func c14Validation(n int) {
 	nondet.Cover("accepted")
 }
 
+// VerifC14SharedFragment: one named fragment (its selections are shared between
+// its spreads by the parser) spread under two object types on which the same
+// field name has different types: each spread is validated against its own type.
+func VerifC14SharedFragment() {
+	sch := xBuildSchema(&xConfig{})
+	root := xFixedRoot()
+	var body []*xNode
+	switch nondet.Choice("body", 5) {
+	case 0:
+		body = []*xNode{xF("v")} // scalar on Item, object on Sub
+	case 1:
+		body = []*xNode{xF("v", xF("c"))} // valid on Sub only
+	case 2:
+		body = []*xNode{xF("c")} // known on Sub only
+	case 3:
+		body = []*xNode{xF("__typename")}
+	case 4:
+		body = []*xNode{xF("v", xF("v"))}
+	}
+	frag := &xFragDef{name: "F", on: "Item", subs: body}
+	underSub := false
+	place := func(name string) *xNode {
+		// a spread directly under Item, or under Item.sub (a Sub)
+		if nondet.Choice(name, 2) == 0 {
+			return xF("one", xSpread(frag))
+		}
+		underSub = true
+		return xF("one", xF("sub", xSpread(frag)))
+	}
+	nodes := []*xNode{xAs("p", place("first")), xAs("q", place("second"))}
+	valid := c14Valid(sch.query, nodes, true)
+	res := sch.xRunText(root, nodes, nil, &xLIFOScheduler{})
+	nondet.Assert((res.prepErr == nil) == valid, "accept-iff-valid")
+	if res.prepErr != nil || !valid {
+		nondet.Cover("rejected")
+		return
+	}
+	nondet.Assert(res.err == nil, "validated-no-shape-error")
+	if res.err != nil {
+		return
+	}
+	if !underSub {
+		// (thunder applies a fragment to an object whatever its type condition says;
+		// the reference evaluator only applies matching ones, so values are compared
+		// only when every spread sits under the fragment's own type — see DESIGN 0.6)
+		var errs []xRefError
+		want := sch.xEval(sch.query, root, nodes, nil, &errs)
+		nondet.Assert(nondet.DeepEq(res.val, want), "fields-exactly-as-selected")
+	}
+	nondet.Cover("accepted")
+}
+
 func VerifC14Validation2() { c14Validation(2) }
 func VerifC14Validation3() { c14Validation(3) }
 
